@@ -196,7 +196,11 @@ def _on_terms(terms_by_decl):
         out.append(ilen(isnoc(s, x)) == ilen(s) + 1)
         out.append(maxabs(isnoc(s, x)) == zmax(maxabs(s), zabs(x)))
         out.append(haszero(isnoc(s, x)) == z3.Or(haszero(s), x == 0))
+    jc = z3.Int('j!cs')
     for (c, s) in terms_by_decl.get('csnoc', []):
+        # Seq.lean cget_snoc: reading a sequence extended by one clause
+        out.append(_forall([jc], z3.Implies(z3.And(0 <= jc, jc <= clen(c)),
+                                            cget(csnoc(c, s), jc) == z3.If(jc == clen(c), s, cget(c, jc))), [cget(csnoc(c, s), jc)]))
         out.append(chaszero(csnoc(c, s)) == z3.Or(chaszero(c), haszero(s)))
         for (x, y) in terms_by_decl.get('capp', []):
             if c.eq(capp(x, y)):
@@ -300,7 +304,7 @@ def _on_terms(terms_by_decl):
         if z3.is_app(sq) and sq.decl().name() == 'imapsub':
             s0, A, n = sq.children()
             l = iget(s0, i)
-            out.append(z3.Implies(z3.And(0 <= i, i < ilen(s0)), iget(sq, i) == z3.Select(A, z3.If(l >= 0, l, n + l))))
+            out.append(z3.Implies(z3.And(0 <= i, i < ilen(s0)), iget(sq, i) == z3.If(l >= 0, z3.Select(A, l), z3.Select(A, n + l))))
     for (sq,) in terms_by_decl.get('haszero', []):
         # witness of a zero literal (Seq.lean haszero_witness)
         out.append(z3.Implies(haszero(sq), z3.And(0 <= zpos(sq), zpos(sq) < ilen(sq), iget(sq, zpos(sq)) == 0)))
@@ -483,11 +487,15 @@ def _is_neg(e):
 
 
 def _has_bound(e):
+    """does the term mention a variable bound OUTSIDE it?  (binders inside the term, e.g. a lambda array, are fine:
+    _collect never descends below a quantifier, so every term it meets is outside all binders)"""
     stack = [e]
     while stack:
         x = stack.pop()
         if z3.is_var(x):
             return True
+        if z3.is_quantifier(x):
+            continue
         stack.extend(x.children())
     return False
 
